@@ -118,7 +118,15 @@ fn main() {
                 })
                 .collect();
             for h in hs {
-                let (t, outs) = h.join().expect("thread panicked");
+                let (t, outs) = match h.join() {
+                    Ok(x) => x,
+                    Err(p) => {
+                        runs += 1;
+                        let msg = p.downcast_ref::<String>().cloned().or_else(|| p.downcast_ref::<&str>().map(|s| s.to_string())).unwrap_or_default();
+                        mismatches.push(format!("threads={} one evaluating thread panicked ({}) where the sequential run returns outcomes", n, msg));
+                        continue;
+                    }
+                };
                 for o in outs {
                     runs += 1;
                     if o != seq[t % inputs.len()] {
@@ -139,7 +147,14 @@ fn main() {
             })
             .collect();
         for h in hs {
-            let (t, o) = rt.block_on(h).expect("task panicked");
+            let (t, o) = match rt.block_on(h) {
+                Ok(x) => x,
+                Err(e) => {
+                    runs += 1;
+                    mismatches.push(format!("tokio: a spawned evaluation panicked ({}) where the sequential run returns outcomes", e));
+                    continue;
+                }
+            };
             runs += 1;
             if o != seq[t % inputs.len()] {
                 mismatches.push(format!("tokio input={} got {} want {}", t % inputs.len(), o, seq[t % inputs.len()]));
